@@ -21,7 +21,25 @@ def run(ctx):
     h = ctx.ir('StandardRequestHandler', 'request.standard')
     f = ctx.the_fsm(h)
     idle = f.init
-    REQ = 'self.interface.setup.request'
+    BREQ = 'self.interface.setup.request'
+    # the dispatch operand: the signal the idle edges compare with constants (bRequest itself, or a named copy of it)
+    cnt = {}
+    for e in f.out_edges(idle):
+        for l in e.guard:
+            ce = q.const_eq(l.e) if isinstance(l.e, E) else None
+            if ce:
+                cnt[ce[1]] = cnt.get(ce[1], 0) + 1
+    ctx.need(cnt, 'request dispatch comparisons on the idle edges')
+    REQ = max(sorted(cnt), key=lambda k: cnt[k])
+    if REQ != BREQ:
+        d = h.drivers(REQ, exact=True)
+        si = h.signals.get(REQ)
+        full = len(d) == 1 and d[0].domain == 'comb' and not d[0].guard and d[0].state is None and \
+            isinstance(d[0].rhs, E) and d[0].rhs.canon() == BREQ and si is not None and (si.w or 0) >= 8
+        ctx.ob('C10.dispatch-operand', 'StandardRequestHandler.dispatch-operand', full, d[0].loc if d else f.state_loc[idle],
+               'requests are dispatched on %s (width %s): it must be bRequest itself or an unconditional combinational copy of all '
+               '8 bits of it -- a narrower copy makes unimplemented request codes alias implemented ones and they are answered '
+               'instead of STALLed: %s' % (REQ, getattr(si, 'w', None), [q.fmt(x) for x in d]))
     seen = {}
     default = None
     for e in f.out_edges(idle):
